@@ -20,11 +20,9 @@ type statsManager struct {
 
 func (s *statsManager) getClientStats(clientID string) (stats *ClientStats) {
 	if stats = s.clientStats[clientID]; stats == nil {
-		subStats, _ := s.subStatsReader.GetClientStats(clientID)
-
-		stats = &ClientStats{
-			SubscriptionStats: subStats,
-		}
+		// Do not read the subscription stats here: clientMu is held, and the subscription store can be read-locked by a
+		// goroutine (deliverMessage -> queue notifier) which is waiting for clientMu. GetClientStats fills them in.
+		stats = &ClientStats{}
 		s.clientStats[clientID] = stats
 	}
 	return stats
@@ -485,12 +483,14 @@ func (s *statsManager) GetGlobalStats() GlobalStats {
 
 // GetClientStats returns the client statistic information for given client id.
 func (s *statsManager) GetClientStats(clientID string) (ClientStats, bool) {
+	// read the subscription store before taking clientMu, see getClientStats.
+	subStats, _ := s.subStatsReader.GetClientStats(clientID)
 	s.clientMu.Lock()
 	defer s.clientMu.Unlock()
 	if stats := s.clientStats[clientID]; stats == nil {
 		return ClientStats{}, false
 	} else {
-		s, _ := s.subStatsReader.GetClientStats(clientID)
+		s := subStats
 		return ClientStats{
 			PacketStats:       *stats.PacketStats.copy(),
 			MessageStats:      *stats.MessageStats.copy(),
